@@ -3,7 +3,7 @@ import os
 
 from hypothesis import strategies as st
 
-from ..common import maybe_disturb, REPO, crash_signature, digest, grammar, has_error, is_zero_width, nodes_preorder, short
+from ..common import delete_block, maybe_disturb, tree_via, REPO, crash_signature, digest, grammar, has_error, is_zero_width, nodes_preorder, short
 from ..engine import Outcome, Prop
 from ..gen import text as T
 from ..model.conform import Conf
@@ -169,7 +169,7 @@ def check_tree(cf, m):
 
 class C05(Prop):
     id = 'C05'
-    rule = ('Generated: adversarial texts, mutated real code, nesting builders x 9 grammars; EVERY non-error node of every tree is '
+    rule = ('Generated: adversarial texts, mutated real code, nesting builders x 9 grammars x tree provenance {fresh parse; assembled by the diff parser from a line-edited earlier text, or from the drawn text after the block below one of its lines was deleted; unpickled}; EVERY non-error node of every tree is '
             'one elementary check. Oracle (vf/model/conform.py, built from the grammar text by the independent EBNF reader): node '
             'type is a rule of the version and its child sequence is accepted by the rule NFA where a child matches a symbol through '
             'the unit-chain closure; conventions exactly as stated: single-child collapse, virtual INDENT/DEDENT in suite, param '
@@ -182,14 +182,37 @@ class C05(Prop):
     def strategy(self, tier):
         kinds = ('repo',) if tier == 'quick' else ('repo', 'stdlib3.12')
         w = {'stmt': 8, 'kw': 4, 'op': 6}
-        return st.fixed_dictionaries({'code': T.adversarial_text(corpus_kinds=kinds, weights=w, nest_depth=30), 'version': T.version()})
+        return st.fixed_dictionaries({'code': T.adversarial_text(corpus_kinds=kinds, weights=w, nest_depth=30), 'version': T.version(),
+                                      'prov': st.sampled_from(['fresh', 'fresh', 'diffed', 'diffed', 'unpickled']), 'how': st.integers(0, 10 ** 4)})
 
     def check(self, case):
         code, v = case['code'], case['version']
         try:
             maybe_disturb(grammar(v), code, v)      # process history: an unfinished earlier call must not matter
-            m = grammar(v).parse(code)
+            # every tree the parser hands out has to conform - also one that the diff parser assembled from copied and re-parsed
+            # parts (used even where it differs from the fresh tree: that difference is C04's subject, conformance is this one's)
+            prov = case.get('prov', 'fresh')
+            how = case.get('how', 0)
+            if prov == 'diffed' and how % 3 == 0:
+                # the drawn text is the EARLIER state; the judged text is what is left when the body below one of its lines is
+                # deleted (a header that lost its block, the next line dedented)
+                shorter = delete_block(code, how // 3)
+                if shorter is not None:
+                    from .c20 import diff_parse
+                    m = diff_parse(grammar(v), [code, shorter], digest(code, v, 'c05b').hex())
+                    code, prov = shorter, 'diffed(block-deleted)'
+                    if m.get_code() != code:
+                        m, prov = grammar(v).parse(code), 'fresh(diff-fallback)'
+                else:
+                    prov = 'fresh'
+            if not prov.startswith('diffed('):
+                m, prov = tree_via(grammar(v), code, prov, how, digest(code, v, 'c05').hex(),
+                                   lambda mod, text: None, same_shape_only=False)
+            if m.get_code() != code:
+                m, prov = grammar(v).parse(code), 'fresh(diff-fallback)'
             fail, n, shapes = check_tree(conf(v), m)
+            if fail is not None and prov != 'fresh':
+                fail = (fail[0], 'tree provenance %s: %s' % (prov, fail[1]))
         except RecursionError:
             return Outcome(excluded='recursion-limit')
         except Exception as e:
@@ -197,8 +220,8 @@ class C05(Prop):
         err = has_error(m)
         self._shapes = getattr(self, '_shapes', set())
         self._shapes.update((v,) + s for s in shapes)
-        classes = ['error-node'] if err else ['clean']
-        return Outcome(fail=fail, nontrivial=err and bool(shapes), classes=classes, key=digest(code, v), units=max(1, n))
+        classes = (['error-node'] if err else ['clean']) + ['tree:' + prov]
+        return Outcome(fail=fail, nontrivial=err and bool(shapes), classes=classes, key=digest(code, v, prov), units=max(1, n))
 
     def sample_repr(self, case):
         return {'code': short(case['code'], 200), 'version': case['version']}
